@@ -165,14 +165,17 @@ class InputMutated(Exception):
 
 
 VARIANTS = ['f64-C', 'f64-C', 'f64-F', 'f32-C', 'f64-bkg32', 'f64-C-view', 'be-f64', 'be-f32']
-# mixed-dtype variants need values chosen for them (exactly representable in the narrower type): used by gen_near_case
-MIXED = ['f32-im', 'f32-maps', 'be-f32-im', 'f32-im-F']
 
 
 def prepare_inputs(im, bkg, rms, variant='f64-C'):
     """the arrays handed to find_islands: dtype / byte-order / memory-order variants of the same values
     (the generator guarantees they are exactly representable in the narrower type)"""
     f8, f4 = np.float64, np.float32
+    if variant.startswith('mix:'):      # 'mix:<im>,<bkg>,<rms>[:F]' with dtype codes f4 f8 >f4 >f8 - three independent dimensions
+        parts = variant.split(':')
+        dts = parts[1].split(',')
+        order = 'F' if len(parts) > 2 and parts[2] == 'F' else 'C'
+        return tuple(np.array(a, dtype=np.dtype(dt), order=order) for a, dt in zip((im, bkg, rms), dts))
     if variant == 'f32-C':
         return tuple(np.ascontiguousarray(a, dtype=f4) for a in (im, bkg, rms))
     if variant == 'f64-F':
@@ -528,12 +531,21 @@ def float64_agrees_with_exact(c):
 
 
 def gen_near_case(rng, k=0):
-    """mixed-dtype grids whose signal-to-noise sits within a few float32 ulps of a threshold: the lattice
-    value t (flood or seed) is divided by rms * (1 +/- delta), delta = 2^-30 (float64 maps; ~0.008 float32 ulp,
-    so a float32 snr lands ON the threshold) or 2^-20 (float32 maps; 8 ulps).  Expected membership is decided by
-    exact rational arithmetic on the stored values, and only grids on which IEEE double arithmetic agrees with it
-    are kept (it always does: 2^-30 is 4e6 double ulps)."""
-    variant = MIXED[k % len(MIXED)]
+    """mixed-dtype grids whose signal-to-noise sits within a small fraction of a float32 ulp of a threshold.
+    The dtypes of im, bkg and rms are three INDEPENDENT dimensions (all 8 combinations of float32/float64, native or
+    big-endian, C or F order).  The threshold-adjacent value is carried by whichever operand has the extra precision:
+      rms float64            : rms * (1 +/- j * 2^-30)           (snr = t / (1 +/- j 2^-30))
+      else bkg float64       : bkg +/- j * 2^-28                 (snr = t -/+ j 2^-28 / rms)
+      else im float64        : im  +/- j * 2^-28
+      all float32            : rms * (1 +/- j * 2^-20)           (8 float32 ulps; everything is float32 anyway)
+    so that any evaluation that rounds snr (or im - bkg) to float32 lands ON the threshold.  Expected membership is
+    decided by exact rational arithmetic on the stored values; only grids on which IEEE double evaluation agrees
+    with it are kept."""
+    combo = k % 8
+    dts = ['f4' if (combo >> i) & 1 == 0 else 'f8' for i in range(3)]          # im, bkg, rms
+    be = (k // 8) % 3 == 2
+    order = ':F' if (k // 8) % 4 == 1 else ''
+    variant = 'mix:' + ','.join(('>' if be else '') + d for d in dts) + order
     for _try in range(20):
         kind = ['random', 'diag', 'bars', 'lshape', 'ring'][rng.integers(0, 5)]
         H, W = int(rng.integers(1, 10)), int(rng.integers(1, 10))
@@ -541,13 +553,23 @@ def gen_near_case(rng, k=0):
         seed = flood + float(rng.choice(SEED_STEPS))
         on = pattern(rng, H, W, kind)
         im, bkg, rms = realise(rng, on, flood, seed, 0.1, zero_mode=0, nan_mode=int(rng.choice([0, 0, 1])))
-        delta = 2.0 ** -20 if variant == 'f32-maps' else 2.0 ** -30
         with np.errstate(all='ignore'):
             snr = np.abs(im - bkg) / rms
         tie = np.isfinite(snr) & ((snr == flood) | (snr == seed))
-        pert = rng.choice([0.0, delta, -delta, 2 * delta, -2 * delta], size=(H, W))
-        rms = np.where(tie, rms * (1.0 + pert), rms)
-        c = mk_case('near-' + kind, im, bkg, rms, flood, seed, extra=dict(variant=variant))
+        j = rng.choice([0.0, 1.0, -1.0, 2.0, -2.0], size=(H, W))
+        if dts[2] == 'f8':
+            rms = np.where(tie, rms * (1.0 + j * 2.0 ** -30), rms)
+            carrier = 'rms'
+        elif dts[1] == 'f8':
+            bkg = np.where(tie, bkg + j * 2.0 ** -28, bkg)
+            carrier = 'bkg'
+        elif dts[0] == 'f8':
+            im = np.where(tie, im + j * 2.0 ** -28, im)
+            carrier = 'im'
+        else:
+            rms = np.where(tie, rms * (1.0 + j * 2.0 ** -20), rms)
+            carrier = 'rms(f4)'
+        c = mk_case('near-' + kind, im, bkg, rms, flood, seed, extra=dict(variant=variant, carrier=carrier))
         # the values must survive the cast to the variant's dtypes
         arrs = prepare_inputs(im, bkg, rms, variant)
         same = all(np.array_equal(np.asarray(a, dtype=np.float64), b, equal_nan=True) for a, b in zip(arrs, (im, bkg, rms)))
@@ -735,7 +757,7 @@ def run(ctx):
     for k in range(60 if ctx.quick else 1500):
         cases.append(gen_case(rng, small=(k % 2 == 0), inf_mode=True))
     # mixed dtypes / byte orders with values a few float32 ulps from the thresholds (exact rational judge)
-    near = [gen_near_case(rng, k) for k in range(200 if ctx.quick else 4000)]
+    near = [gen_near_case(rng, k) for k in range(320 if ctx.quick else 4800)]
     cases += [c for c in near if c is not None]
     # a history in one process: the first block runs in a fresh process state, then fits of big islands
     # (find_sources_in_image) are interleaved BETWEEN blocks of find_islands cases
@@ -832,7 +854,7 @@ def shrink(c, still_fails):
     """greedy: crop rows/columns, then switch pixels off (image := background), while it still fails"""
     im, bkg, rms, flood, seed, inside = arrays(c)
 
-    keep = {k: c[k] for k in ('variant', 'history') if c.get(k)}
+    keep = {k: c[k] for k in ('variant', 'history', 'carrier') if c.get(k)}
     keep.setdefault('variant', variant_of(c))      # the shrunk grid is run with the same dtype / layout
 
     def mk(im, bkg, rms):
